@@ -38,6 +38,7 @@ type jPod struct {
 	Req  jReq   `json:"requirements"`
 	CPU  string `json:"cpu"`
 	Anti bool   `json:"hostname_anti_affinity,omitempty"`
+	DRA  bool   `json:"has_resource_claim,omitempty"`
 }
 type jClaim struct {
 	Host     string   `json:"claim"`
@@ -103,6 +104,9 @@ func setupSolve(tpls []jTpl, jpods []jPod, strict bool, workers int) *solveEnv {
 			opts.Labels = map[string]string{"app": "spread"}
 			opts.PodAntiRequirements = []corev1.PodAffinityTerm{{TopologyKey: corev1.LabelHostname, LabelSelector: &metav1.LabelSelector{MatchLabels: map[string]string{"app": "spread"}}}}
 		}
+		if jp.DRA { // DRA requests are ignored in this configuration: the pod must be refused, never placed
+			opts.ResourceClaims = []corev1.PodResourceClaim{{Name: "dev", ResourceClaimName: lo.ToPtr("some-claim")}}
+		}
 		p := test.UnschedulablePod(opts)
 		kit.Apply(ctx, cl, p)
 		pods = append(pods, p)
@@ -148,7 +152,7 @@ func runS(c *kit.Ctx, r *kit.Rand, idx int) {
 	anti := !single && r.Chance(1, 3)
 	var jpods []jPod
 	for i := 0; i < nPods; i++ {
-		jpods = append(jpods, jPod{Req: genReq(r, r.Bool()), CPU: kit.Pick(r, []string{"500m", "1", "2", "3"}), Anti: anti})
+		jpods = append(jpods, jPod{Req: genReq(r, r.Bool()), CPU: kit.Pick(r, []string{"500m", "1", "2", "3"}), Anti: anti, DRA: !single && r.Chance(1, 12)})
 	}
 	sc := scase{Kind: "solve", Strict: strict, Workers: workers, Tpls: tpls, Pods: jpods}
 	e := setupSolve(tpls, jpods, strict, workers)
@@ -231,6 +235,16 @@ func runS(c *kit.Ctx, r *kit.Rand, idx int) {
 	}
 	if !strict && sc.ROE > 0 {
 		c.Fail(c.NextID(), "reserved offering error in fallback mode", "", sc)
+	}
+	for _, nc := range results.NewNodeClaims {
+		for _, q := range nc.Pods {
+			if len(q.Spec.ResourceClaims) > 0 {
+				c.Fail(c.NextID(), "a pod with a ResourceClaim was placed although DRA requests are ignored", "", sc)
+			}
+		}
+	}
+	if len(results.DRAErrors()) > 0 {
+		c.Count("S:pods:refused-dra-requests-ignored")
 	}
 	// deferred pods are on no NodeClaim
 	for pod := range results.ReservedOfferingErrors() {
